@@ -285,7 +285,7 @@ type c13SeqCase struct {
 	Ops []c12Op `json:"ops"`
 }
 
-var c13SeqEnv = c12Env{Name: "seq", MaxFrame: 4, ConnWin: 1 << 20, StreamWin: 4}
+var c13SeqEnv = c12Env{Name: "seq", MaxFrame: 4, ConnWin: 1 << 20, StreamWin: 8}
 
 func c13SeqOps(ids []uint32, withOpen bool) []c12Op {
 	var ops []c12Op
@@ -301,7 +301,8 @@ func c13SeqOps(ids []uint32, withOpen bool) []c12Op {
 		ops = append(ops, c12Op{K: c12Data, S: s, N: 6})
 	}
 	for _, s := range ids {
-		ops = append(ops, c12Op{K: c12Win, S: s, N: 100})
+		// a SETTINGS_INITIAL_WINDOW_SIZE decrease blocks the stream, an increase re-arms it
+		ops = append(ops, c12Op{K: c12Win, S: s, N: -100}, c12Op{K: c12Win, S: s, N: 100})
 	}
 	for _, s := range ids {
 		for _, p := range c13Prios {
@@ -490,7 +491,7 @@ func c13RefParse(ms []c13Member, x c13ParseCase) (u uint8, inc bool, ok bool, am
 
 func TestVerif_C13(t *testing.T) {
 	vx.Run(t, "C13", func(c *vx.Ctx) {
-		c.Rule("SEQ: every contract-respecting history of length <= depth on a fresh RFC 9218 scheduler (streams 1,3,5 opened in order with priority in {u3, u3i, u0, u7i}; AdjustStream to the same four on open streams and on not-yet-opened ones; DATA of 6 bytes with maxFrameSize 4 and initial stream window 4, so that streams block and are re-armed by win(+100); close; control frame; Pop), from the empty scheduler and from each of the 64 seeds 'three open streams with priorities in {u3,u3i,u0,u7i}^3, each holding one DATA frame'; every history ends in a monitored drain. LASSO: every seed (3 open streams, priority in {u0,u0i,u3,u3i}^3, 400 bytes queued each, initial window in {0,large}^3) x prefix (<= p ops) x cycle (<= 3 ops, at least one Pop) over {Pop, win(s,+4), data(s,4), control}, cycle repeated R=16 times. Monitor on every Pop of a stream frame: no stream with a smaller urgency value had a sendable head; a non-incremental stream that was served stays the only non-incremental stream of its urgency served while it remains sendable; a continuously sendable stream is not passed over by more than 2 x (streams of its urgency) consecutive Pops of its urgency (incremental streams individually, non-incremental streams as a class). IN: parseRFC9218Priority on every dictionary of <= 3 members over 25 members x 2 separators x canUseDefault. Non-trivial = history with at least one checked Pop / field that was parsed and compared")
+		c.Rule("SEQ: every contract-respecting history of length <= depth on a fresh RFC 9218 scheduler (streams 1,3,5 opened in order with priority in {u3, u3i, u0, u7i}; AdjustStream to the same four on open streams and on not-yet-opened ones; DATA of 6 bytes with maxFrameSize 4 and initial stream window 8; win(s,-100) blocks a stream and win(s,+100) re-arms it; close; control frame; Pop), from the empty scheduler, from 'stream 1 open (u3) with one DATA frame' and from each of the 64 seeds 'three open streams with priorities in {u3,u3i,u0,u7i}^3, each holding one DATA frame'; every history ends in a monitored drain. LASSO: every seed (3 open streams, priority in {u0,u0i,u3,u3i}^3, 400 bytes queued each, initial window in {0,large}^3) x prefix (<= p ops) x cycle (<= 3 ops, at least one Pop) over {Pop, win(s,+4), data(s,4), control}, cycle repeated R=16 times. Monitor on every Pop of a stream frame: no stream with a smaller urgency value had a sendable head; a non-incremental stream that was served stays the only non-incremental stream of its urgency served while it remains sendable; a continuously sendable stream is not passed over by more than 2 x (streams of its urgency) consecutive Pops of its urgency (incremental streams individually, non-incremental streams as a class). IN: parseRFC9218Priority on every dictionary of <= 3 members over 25 members x 2 separators x canUseDefault. Non-trivial = history with at least one checked Pop / field that was parsed and compared")
 		c.Assume("PRIORITY_UPDATE buffering: histories keep at most one update buffered for a not-yet-opened stream at a time and send none for closed streams (RFC 9218 lets an endpoint limit buffering; the scheduler documents a single most-recent slot)")
 		c.Assume("bounded-wait counters restart at every OpenStream/CloseStream/AdjustStream and whenever the waiting stream is not sendable; the bound is 2 x number of open streams of that urgency")
 		c.Assume("parse: a dictionary in which a valid u/i member is followed by an invalid duplicate of the same key (e.g. 'u=1, u=9') is excluded: RFC 8941 'last one wins' + RFC 9218 'ignore out-of-range' can be read both ways")
@@ -503,10 +504,15 @@ func TestVerif_C13(t *testing.T) {
 			depth := vx.Pick(c, 4, 5)
 			c.Note("seq/from-empty.depth", depth)
 			c.Note("seq/from-empty.alphabet", len(ops))
+			// the second seed spends the depth on the second stream (buffered
+			// PRIORITY_UPDATE before its OpenStream, then data and Pops)
+			seeds := [][]c12Op{nil, {{K: c12Open, S: 1, P: c12Prio{U: 3}}, {K: c12Data, S: 1, N: 6}}}
 			vx.Enumerate(c, "seq/from-empty", vx.Opts{}, func(yield func(c13SeqCase) bool) {
 				for l := 1; l <= depth; l++ {
-					if !c13GenSeqs(ids, nil, ops, l, func(o []c12Op) bool { return yield(c13SeqCase{Ops: o}) }) {
-						return
+					for _, seed := range seeds {
+						if !c13GenSeqs(ids, seed, ops, l, func(o []c12Op) bool { return yield(c13SeqCase{Ops: o}) }) {
+							return
+						}
 					}
 				}
 			}, func(w *vx.W, x c13SeqCase) { c13RunSeq(w, c13SeqEnv, x.Ops, -1) })
